@@ -12,7 +12,8 @@ S1-A publication: a lazily initialised shared object sets its 'ready' flag last;
 from __future__ import annotations
 
 import ast
-from typing import Dict, List, Optional, Set, Tuple
+import re
+from typing import Any, Dict, List, Optional, Set, Tuple
 
 from ..astq import assignments, calls, params, stmts
 from ..callgraph import fkey
@@ -119,6 +120,11 @@ def run(chk: Check, proj: Project) -> None:
     s1a_reentrant(chk, proj, w)
     s1a_parsed_values(chk, proj, w)
     s1i_shared_instances(chk, proj, w)
+    from . import C18
+
+    c18m = proj.mod("util.cache")
+    chk.borrow("S1-A6", "the LRU's dict and recency list stay in step also on the path that single-threaded code never takes (two threads miss the same key and both store it): on an existing key the node is unlinked before it is re-linked (shared with C18-S1)",
+               lambda sub: C18.s1(sub, proj, c18m, c18m.cls("LRUCache")))
     from . import C16
 
     chk.borrow("S1-A5", "the class-media memo is race-tolerant because it is PURE: the entry for a class is written once all selected bases are memoised, its value depends only on the class and its bases' entries, and the getter returns the memo entry of the requested class (never a local left over from a loop that another thread's progress may have shortened) (shared with C16-S2)",
@@ -552,26 +558,34 @@ def s1i_shared_instances(chk: Check, proj: Project, w) -> None:
     confined = {name for name, fn in props.items() if any(isinstance(y, ast.Attribute) and isinstance(y.value, ast.Name) and y.value.id == "self" and y.attr in tl_fields for y in ast.walk(fn))}
     MUT = ("append", "appendleft", "pop", "popleft", "insert", "extend", "add", "update", "clear", "remove", "discard", "setdefault")
     written: Dict[str, ast.AST] = {}
-    for fn in cls.body:
+    # the class and every in-package subclass of it (the dynamic component is served by as_view() like any other)
+    bodies = [(m, fn) for fn in cls.body]
+    for mm2 in proj.modules.values():
+        for c2 in [x for x in ast.walk(mm2.tree) if isinstance(x, ast.ClassDef) and x is not cls and any((dotted(b_) or "").split(".")[-1] == "Component" for b_ in x.bases)]:
+            bodies += [(mm2, fn) for fn in c2.body]
+    owner: Dict[str, Any] = {}
+    for mm2, fn in bodies:
         if not isinstance(fn, ast.FunctionDef) or fn.name in ("__init__", "__init_subclass__"):
             continue
         for x in ast.walk(fn):
             if isinstance(x, ast.Attribute) and isinstance(x.ctx, (ast.Store, ast.Del)) and isinstance(x.value, ast.Name) and x.value.id == "self":
                 written.setdefault(x.attr, x)
+                owner.setdefault(x.attr, mm2)
             if isinstance(x, ast.Call) and isinstance(x.func, ast.Attribute) and x.func.attr in MUT and isinstance(x.func.value, ast.Attribute) and isinstance(x.func.value.value, ast.Name) and x.func.value.value.id == "self":
                 written.setdefault(x.func.value.attr, x)
+                owner.setdefault(x.func.value.attr, mm2)
     n = 0
     for attr, site in sorted(written.items()):
         n += 1
         key = f"component:Component.{attr}:thread-confined"
         if attr in confined:
-            chk.holds("S1-I", key, m.loc(site), f"`self.{attr}` is a property over a threading.local created in __init__: each thread has its own")
+            chk.holds("S1-I", key, owner.get(attr, m).loc(site), f"`self.{attr}` is a property over a threading.local created in __init__: each thread has its own")
         elif attr in I_BENIGN:
             chk.holds("S1-I", key, m.loc(site), f"reviewed: {I_BENIGN[attr]}", nontrivial=False)
         elif attr in tl_fields:
             chk.holds("S1-I", key, m.loc(site), "the thread-local holder itself")
         else:
-            chk.violated("S1-I", key, m.loc(site), f"`{short(enclosing_stmt(site))}` keeps per-render state on the component object, and as_view() shares one object between all request threads: two requests whose renders overlap read each other's `self.input` / `self.id` / inject() context")
+            chk.violated("S1-I", key, owner.get(attr, m).loc(site), f"`{short(enclosing_stmt(site))}` keeps per-render state on the component object, and as_view() shares one object between all request threads: two requests whose renders overlap read each other's `self.input` / `self.id` / inject() context")
     chk.floor("S1-I", n, 1)
 
 
@@ -653,7 +667,16 @@ def s1a_nodes(chk: Check, proj: Project, w, reach) -> None:
                 n += 1
                 tbl = A_TEMPLATE_OK.get((m.name.replace("django_components.", ""), qual_of(x).split(".")[-1], x.attr))
                 key = f"{fk.replace('django_components.', '')}:template.{x.attr}"
-                if tbl:
+                if tbl and x.attr == "_djc_is_component_nested" and qual_of(x).split(".")[-1] == "_prepare_template":
+                    # the review rests on the VALUE: every thread stores the same thing. A literal True, or
+                    # bool(<render_context>.get(BLOCK_CONTEXT_KEY)) evaluated after the render pushed a BlockContext object
+                    st_ = enclosing_stmt(x)
+                    v_ = getattr(st_, "value", None)
+                    tv = norm(v_) if v_ is not None else ""
+                    same_for_all = (isinstance(v_, ast.Constant) and v_.value is True) or bool(re.fullmatch(r"bool\((\w+\.)*render_context\.get\(BLOCK_CONTEXT_KEY\)\)", tv))
+                    chk.ob("S1-A2", key, m.loc(x), same_for_all, f"reviewed: {tbl}" if same_for_all else
+                           f"`{short(st_)}` stores a value that differs between renders on the process-wide cached Template (it is written at prepare time and read when the DEFERRED render starts): a page that extends and overrides a block renders concurrently with a plain page using the same component, the plain one lands in between, and the extending page gets the standard body")
+                elif tbl:
                     chk.holds("S1-A2", key, m.loc(x), f"reviewed: {tbl}", nontrivial=False)
                 else:
                     chk.violated("S1-A2", key, m.loc(x), f"`{short(enclosing_stmt(x))}` stores on a Template object during render; Template instances come from shared caches")
